@@ -100,8 +100,29 @@ func Gen(seed uint64, profile string) *Scenario {
 			switch hr.Intn(4) {
 			case 0:
 				sc.Archives[i].Dst = "/w/deep2/dst"
-			case 1:
+			case 1, 2:
 				sc.Archives[i].Wipe = true
+				if hr.Chance(1, 2) {
+					// what an earlier call saw as a real directory is now a link
+					var dirs []string
+					for _, pe := range sc.Archives[i-1].Entries {
+						ss := simkit.Segs(pe.Name)
+						if len(ss) >= 2 && ss[0] != ".." && ss[0] != "." {
+							dirs = append(dirs, ss[0])
+						}
+					}
+					d := "a"
+					if len(dirs) > 0 {
+						d = simkit.Pick(hr, dirs)
+					} else {
+						sc.Archives[i-1].Entries = append([]Entry{{Name: "a/", Type: "dir", Mode: 0o755, Sec: 1000000000}, {Name: "a/main.tf", Type: "reg", Mode: 0o644, Sec: 1000000000, Body: "M;"}}, sc.Archives[i-1].Entries...)
+					}
+					pre := []Entry{
+						{Name: d, Type: "sym", Mode: 0o777, Sec: 1000000001, Link: "."},
+						{Name: d + "/" + simkit.Pick(hr, []string{"up", "main.tf", "x"}), Type: "sym", Mode: 0o777, Sec: 1000000002, Link: simkit.Pick(hr, []string{"..", "../..", "../victim"})},
+					}
+					sc.Archives[i].Entries = append(pre, sc.Archives[i].Entries...)
+				}
 			}
 		}
 		if len(sc.Allow) == 1 && sc.Allow[0] == "../shared" && len(sc.Archives) >= 2 {
